@@ -56,7 +56,14 @@ def extract_hdf5_datasets(filename, memmap=True):
             elif item.dtype.kind in ('V',):
                 arrays[full_path] = Table.read(item, format='hdf5')
 
-    file_handle.visititems(visitor)
+    def visit(group):
+        # unlike visititems, this follows the creation order when the file tracks it
+        for name, item in group.items():
+            visitor(name, item)
+            if isinstance(item, h5py.Group):
+                visit(item)
+
+    visit(file_handle)
     file_handle.close()
 
     # Now create memory-mapped arrays
